@@ -142,6 +142,14 @@ def roundtrip_part(ctx, binary):
     for i in range(60):
         chain = {"t": "e", "n": [97 + i % 2], "a": [], "c": [chain]}
     ops.append("rt 0 " + tree_op(chain))
+    # long values: escaping one value adds hundreds of bytes (growth / reallocation paths of the writer's buffers)
+    for ch in (34, 39, 38, 60, 62, 10, 0xc3):
+        for ln in (41, 60, 120, 250):
+            val = ([0xc3, 0xa9] * (ln // 2)) if ch == 0xc3 else [ch] * ln
+            mixed = [(34, 38, 60, 120)[i % 4] for i in range(ln)]
+            ops.append("rt %d %s" % (ln % 2, tree_op({"t": "e", "n": [97], "a": [{"k": [120], "v": val}, {"k": [121], "v": mixed}], "c": []})))
+            if ch != 10:
+                ops.append("rt %d %s" % (ln % 2, tree_op({"t": "e", "n": [97], "a": [], "c": [{"t": "t", "v": [120] + val}]})))
     base.check_stateless(ctx, binary, ops, "roundtrip", "XmlSyntaxTrace", "XmlSyntaxTrace.cfg", key_of, per_exec=500)
 
 
